@@ -48,7 +48,7 @@ def build(prop, tier, seed, meta, audit, res, wall, proof_ok, nviol, proof_notes
 
 
 def write(prop, ev):
-    d = os.path.join(VERIF, 'evidence')
+    d = os.environ.get('VERIF_EVIDENCE_DIR') or os.path.join(VERIF, 'evidence')
     os.makedirs(d, exist_ok=True)
     path = os.path.join(d, f'{prop}.json')
     tmp = path + '.tmp'
